@@ -58,3 +58,8 @@ cmp -s "$MC/rewrite/extra/simulation_e3.go.txt" "$AK/simulation/zz_e3_verif.go" 
 if [ -d "$MC/checks/c12/race" ] && [ "$PKG" = "./checks/c12" ]; then
   ( cd "$MC" && go build -race -modfile="$B/plain.mod" -tags verif -o "$OUT-race" ./checks/c12/race ) || fail "-race build failed"
 fi
+
+# 8. the memory-effects part (plain build: E1 explorer + E4 world over the uninstrumented driver, CP and DMA engine)
+if [ -d "$MC/checks/c12/mem" ] && [ "$PKG" = "./checks/c12" ]; then
+  ( cd "$MC" && go build -modfile="$B/plain.mod" -tags verif -o "$OUT-mem" ./checks/c12/mem ) || fail "memory-effects part build failed"
+fi
